@@ -58,6 +58,6 @@ Next == Load1 \/ Load2 \/ Call
 Spec == Init /\ [][Next]_vars
 
 Refines == \A p \in Props :
-              \/ OkProp(p, NoPrev, [last EXCEPT !.ub = IF last.low = ZPoison THEN "ub" ELSE ""])
+              \/ OkCore(p, NoPrev, [last EXCEPT !.ub = IF last.low = ZPoison THEN "ub" ELSE ""])
               \/ \E d \in EnabledDeviations : Covers(d, p, last)
 =============================================================================
